@@ -21,14 +21,13 @@ Proof.
   vm_compute in H. discriminate.
 Qed.
 
-(* [(1, True), (1, 1)] is accepted as list[tuple[int, bool]] *)
-Lemma literal_dedup_refuted : ~ c03_full_statement.
-Proof.
-  intros H.
-  specialize (H (VNode (TGeneric c_list) [tup2 t_int t_bool])
-                (OList 1 [OTuple 0 [OInt 1; OBool true]; OTuple 0 [OInt 1; OInt 1]])).
-  vm_compute in H. discriminate.
-Qed.
+(* repaired (repo_fixes/C14-known-value-eq-nested-types.diff): [(1, True), (1, 1)] is no longer
+   accepted as list[tuple[int, bool]] — the two element literals are different KnownValues now *)
+Lemma literal_dedup_repaired :
+  let T := VNode (TGeneric c_list) [tup2 t_int t_bool] in
+  let o := OList 1 [OTuple 0 [OInt 1; OBool true]; OTuple 0 [OInt 1; OInt 1]] in
+  ca table T o = false /\ member table T o = false /\ dedup_lits [OTuple 0 [OInt 1; OBool true]; OTuple 0 [OInt 1; OInt 1]] = [OTuple 0 [OInt 1; OBool true]; OTuple 0 [OInt 1; OInt 1]].
+Proof. vm_compute. repeat split; reflexivity. Qed.
 
 (* {"a": 1, 5: 6} is accepted as TypedDict({"a": int}) *)
 Lemma typeddict_nonstr_key_refuted : ~ c03_full_statement.
@@ -49,7 +48,7 @@ Qed.
 (* ---- facts about the generated table that discharge the side conditions of [ok] ---- *)
 Definition instance_classes : list N :=
   [c_int; c_bool; c_float; c_complex; c_str; c_bytes; c_tuple; c_list; c_set; c_frozenset; c_dict; c_type;
-   c_NoneType; 40; 41; 42; 43; 44; 45; 46]%N.
+   c_NoneType; 40; 41; 42; 43; 44; 45; 46; 50; 51; 52; 53; 54; 55; 56; 57; 58; 59]%N.
 
 (* for every class that has instances in the universe and every class of the
    universe, the implementation's nominal verdict is subclassing + promotion *)
